@@ -14,6 +14,8 @@
 
 //! Shared components and utils for foyer.
 
+#![cfg_attr(not(foyer_verif), allow(unexpected_cfgs))]
+
 /// Allow to enable debug assertions in release profile with feature "strict_assertion".
 pub mod assert;
 /// The bitwise utils.
@@ -35,7 +37,15 @@ pub mod properties;
 /// A rate limiter that returns the wait duration for limitation.
 pub mod rate;
 /// Utilities for spawning tasks.
+#[cfg(not(foyer_verif))]
 pub mod spawn;
+/// Utilities for spawning tasks (verification build: tasks run on the controlled scheduler).
+#[cfg(foyer_verif)]
+#[path = "spawn_verif.rs"]
+pub mod spawn;
+/// Verification-only seams.
+#[cfg(foyer_verif)]
+pub mod verif;
 /// Tracing related components.
 #[cfg(feature = "tracing")]
 pub mod tracing;
